@@ -1,6 +1,7 @@
 """C04 (garbage collection) and C09 (rotational order of halffaces around an edge): pairing, trigger and shape rules"""
 import re
 
+from .canon import Canon, ceq, eq_match
 from .extract import AnalysisBroken
 from .facts import as_assign, estr, need_names, unwrap, walk
 from .lockstep import Ctx, delete_cores, elem_effects, find_gc, gc_rules, owner_rule, compute_rule, km_cache
@@ -186,7 +187,7 @@ def status_remap(ck, f):
         fF, fE, fV = sites["face"][2], sites["edge"][2], sites["vertex"][2]
         c0 = "kernel_.incident_cell(halfface_handle(each(kernel_.faces()), 0)).is_valid()"
         c1 = "kernel_.incident_cell(halfface_handle(each(kernel_.faces()), 1)).is_valid()"
-        ok = (c0, False) in fF and (c1, False) in fF and ("(kernel_.valence(each(kernel_.edges())) == 0)", True) in fE and ("(kernel_.valence(each(kernel_.vertices())) == 0)", True) in fV
+        ok = (c0, False) in fF and (c1, False) in fF and (ceq("kernel_.valence(each(kernel_.edges()))", "0"), True) in fE and (ceq("kernel_.valence(each(kernel_.vertices()))", "0"), True) in fV
         why = "conditions"
         if ok:
             # order: every path to the edge pass has finished the face pass, etc. (the later site is not reachable before the earlier loop is done)
@@ -368,7 +369,7 @@ def run_c09(ck, fb, fbd):
         raise AnalysisBroken("C09: adjacent_halfface_in_cell: candidate sites (result = a halfface of the cell of the given halfface) not recognised (%d)" % len(cand))
     for b, x in cand:
         at = {(s_, p_) for s_, p_, c_ in acn.facts(b)}
-        need = [("(opposite_halfedge_handle(%s) == P1)" % HEc, True), ("(%s != opposite_halfface_handle(P0))" % CAND, True), ("(%s == P0)" % CAND, False)]
+        need = [(ceq("opposite_halfedge_handle(%s)" % HEc, "P1"), True), (ceq(CAND, "opposite_halfface_handle(P0)", "!="), True), (ceq(CAND, "P0"), False)]
         ok = all(nd in at for nd in need)
         (ck.ok if ok else lambda r, w, t: ck.violate(r, w, t, "C09.adjacent:%s" % ("return" if x.get("k") == "ret" else "remember")))("C09.adjacent", ad.loc(x), "a halfface of the cell is %s only if it contains the opposite halfedge and is neither the given halfface nor its opposite" % ("returned" if x.get("k") == "ret" else "remembered"))
     # the legacy flip: halfedge replaced by its opposite only if the halfface contains the opposite and not the halfedge itself
@@ -380,9 +381,9 @@ def run_c09(ck, fb, fbd):
             if not a_ or acn.s(a_[1]) != "true":
                 continue
             fs_ = {(s_, p_) for s_, p_, c_ in acn.facts(bb)}
-            if ("(%s == P1)" % OWN, True) in fs_:
+            if (ceq(OWN, "P1"), True) in fs_:
                 has = acn.s(a_[0])
-            if ("(%s == opposite_halfedge_handle(P1))" % OWN, True) in fs_:
+            if (ceq(OWN, "opposite_halfedge_handle(P1)"), True) in fs_:
                 hasopp = acn.s(a_[0])
     if has is None or hasopp is None:
         raise AnalysisBroken("%s: adjacent_halfface_in_cell: the contains-halfedge / contains-opposite flags are not recognised - re-audit rule C09.adjacent" % ad.where)
